@@ -625,8 +625,8 @@ class SymBytes:
     def __getitem__(self, i):
         if isinstance(i, slice):
             start, stop, step = i.start, i.stop, i.step
-            start = None if start is None else _to_index(start)
-            stop = None if stop is None else _to_index(stop)
+            start = None if start is None else _slice_bound(start, len(self.e))
+            stop = None if stop is None else _slice_bound(stop, len(self.e))
             return SymBytes(self.e[slice(start, stop, step)])
         return self.e[_to_index(i)]
 
@@ -723,6 +723,20 @@ class SymByteArray(SymBytes):
 def _to_index(i):
     if isinstance(i, int):
         return i
+    return i.__index__()
+
+
+def _slice_bound(i, n):
+    """a slice bound on a sequence of length n: python clamps bounds beyond [-n, n], so a symbolic bound is
+    first split into below / inside / above that range (two solver-decided forks) and only enumerated inside
+    it - a bound with a huge domain (a 32-bit length field) costs three classes, not one path per value"""
+    if isinstance(i, int):
+        return i
+    if isinstance(i, (SymInt, SymBV)):
+        if i < -n:
+            return -n
+        if i > n:
+            return n
     return i.__index__()
 
 
@@ -949,7 +963,7 @@ def sym_abs(x):
 
 class SymStructFmt:
     """struct.Struct stand-in for fixed-size integer formats on symbolic bytes
-    (endianness prefix < > ! =, codes B H I L Q and signed b h i l q, x padding)"""
+    (endianness prefix < > ! =, codes B H I L Q and signed b h i l q, x padding, Ns byte fields)"""
     _SIZES = {"B": 1, "H": 2, "I": 4, "L": 4, "Q": 8, "b": 1, "h": 2, "i": 4, "l": 4, "q": 8, "x": 1}
 
     def __init__(self, fmt):
@@ -965,18 +979,34 @@ class SymStructFmt:
             if ch.isdigit():
                 num += ch
                 continue
-            self._codes += [ch] * (int(num) if num else 1)
+            if ch == "s":
+                # "4s": ONE field of that many bytes (a slice of the buffer)
+                self._codes.append(("s", int(num) if num else 1))
+            else:
+                self._codes += [ch] * (int(num) if num else 1)
             num = ""
 
     def unpack_from(self, data, offset=0):
         if isinstance(data, (bytes, bytearray, memoryview)):
             return self._real.unpack_from(data, offset)
         import struct as _struct
+        if isinstance(offset, (SymInt, SymBV)):
+            # decide the out-of-range classes before enumerating the in-range values (struct's own checks)
+            if offset < -len(data):
+                raise _struct.error("offset out of range")
+            if offset > len(data) - self.size:
+                raise _struct.error("unpack_from requires a buffer of at least %d bytes" % self.size)
         off = _to_index(offset)
+        if off < 0:
+            off += len(data)            # struct counts a negative offset from the end of the buffer
         if off < 0 or off + self.size > len(data):
             raise _struct.error("unpack_from requires a buffer of at least %d bytes" % self.size)
         out, p_ = [], off
         for c in self._codes:
+            if isinstance(c, tuple):
+                out.append(data[p_:p_ + c[1]])
+                p_ += c[1]
+                continue
             n = self._SIZES[c]
             if c != "x":
                 out.append(_from_bytes(data[p_:p_ + n], self._order, signed=c.islower()))
